@@ -200,6 +200,17 @@ def run(prop, tier):
     if sv["st"]["status"] != "FAIL" or sv2["st2"]["status"] != "FAIL":
         raise MachineryError("self-test: corrupted trace accepted")
     rep.notes["self_test"] = [sv["st"]["clauses"], sv2["st2"]["clauses"]]
+    # the answered-retransmission clause: it must have been exercised, and a doubled read size on the retransmission must be rejected
+    retried = [t for t in ok if len(t["txns"][0]["writes"]) >= 2 and t["txns"][0]["result"]["kind"] == "reply"]
+    if len(retried) < 5:
+        raise MachineryError("self-test: only %d accepted exact-read transactions with an answered retransmission" % len(retried))
+    m3 = copy.deepcopy(retried[0])
+    m3["id"] = "st3"
+    m3["txns"][0]["reads"][-1]["asked"] *= 2
+    sv3, _ = validate_traces("ClientTrace", "ClientTrace.cfg", [m3], shards=1)
+    if sv3["st3"]["status"] != "FAIL" or "ReadsExactlyFrame" not in sv3["st3"]["clauses"]:
+        raise MachineryError("self-test: a doubled read size on an answered retransmission is accepted")
+    rep.notes["answered_retransmissions_judged"] = len(retried)
     rep.sample({"pdu_event": ev[5], "adu_event": ev[-3]})
     x = ok[0]["txns"][0]
     rep.sample({"client": ok[0]["client"], "script": x["script"], "reads": x["reads"], "frame_pdu": bytes(x["fed"][-1][0]["pdu"]).hex() if x["fed"] and x["fed"][-1] else ""})
